@@ -1,23 +1,63 @@
-/- What the parser guarantees about its result (StreamValid), and the end-to-end composition. -/
+/- What the parser guarantees about its result (StreamValid), and the end-to-end composition.
+
+   Side condition (added; see `Model/Valid.lean` `ValidBlock`, which demands `ts.length < 2 ^ 32 - 1`
+   because `predict_block` does `u32::try_from(block.tokens.len()).unwrap() + 1`): the parser bounds
+   the number of tokens of a block only by the number of input bits (every token consumes at least
+   one), so the statements assume the compressed input is shorter than 2^32 - 1 bits, i.e. shorter
+   than 2^29 bytes (512 MiB). Lemmas: `ExpandsBase` (growth of the plaintext, `copyRef`, `pushAll`),
+   `ExpandsHeader` (`HeaderValid` of `readHeader`), `ExpandsTok` (tokens, blocks). -/
 import Preflate.Proofs.Deflate
 import Preflate.Proofs.Predict
+import Preflate.Proofs.ExpandsTok
 namespace Preflate.Proofs
 open Preflate
 
-/-- the blocks the parser returns are a valid expansion of the plaintext it returns -/
-theorem parse_valid (bs : Bits) (p : Parsed) (h : parseBits bs = .ok p) :
+/-- the parser's result is a valid expansion of the plaintext it returns, PROVIDED every block's
+    token count fits (what `predict_block` unwraps); everything else is unconditional -/
+theorem parse_valid_of_counts (bs : Bits) (p : Parsed) (h : parseBits bs = .ok p)
+    (hn : ∀ b ∈ p.blocks, (blockTokens b).length < 2 ^ 32 - 1) :
     StreamValid p.plain p.blocks ∧ p.eofPadding < 256 := by
-  sorry
+  simp only [parseBits, bind_eq_ok] at h
+  obtain ⟨⟨blocks, plain, bs1⟩, h1, ⟨pad, bs2⟩, h2, h⟩ := h
+  simp only [Except.ok.injEq] at h2 h
+  subst h
+  simp only at hn ⊢
+  obtain ⟨_, e2, e3, e4, _⟩ := readBlocks_valid h1
+  obtain ⟨_, hpad⟩ := readBits_ok h2
+  refine ⟨⟨e4, e3 hn, by simpa using e2.symm⟩, ?_⟩
+  have : (2:Nat) ^ (bs1.length % 8) ≤ 2 ^ 7 := Nat.pow_le_pow_right (by omega) (by omega)
+  have : (2:Nat) ^ 7 = 128 := by decide
+  omega
+
+/-- every block has fewer tokens than the input has bits -/
+theorem parse_counts (bs : Bits) (p : Parsed) (h : parseBits bs = .ok p) :
+    ∀ b ∈ p.blocks, (blockTokens b).length < bs.length := by
+  simp only [parseBits, bind_eq_ok] at h
+  obtain ⟨⟨blocks, plain, bs1⟩, h1, ⟨pad, bs2⟩, h2, h⟩ := h
+  simp only [Except.ok.injEq] at h2 h
+  subst h
+  exact (readBlocks_valid h1).2.2.2.2
+
+/-- the blocks the parser returns are a valid expansion of the plaintext it returns -/
+theorem parse_valid (bs : Bits) (hbs : bs.length < 2 ^ 32 - 1) (p : Parsed)
+    (h : parseBits bs = .ok p) :
+    StreamValid p.plain p.blocks ∧ p.eofPadding < 256 :=
+  parse_valid_of_counts bs p h fun b hb => Nat.lt_trans (parse_counts bs p h b hb) hbs
 
 variable {H : Type}
 
-/-- end to end, for ANY predictor: if analysing an accepted stream yields corrections, then
-    reconstruction from those corrections followed by the block writer returns exactly the bytes
-    the parser consumed -/
-theorem recompress_analyze (P : Pred H) (d : List UInt8) (p : Parsed) (hp : parse d = .ok p)
+/-- end to end, for ANY predictor: if analysing an accepted stream (shorter than 512 MiB) yields
+    corrections, then reconstruction from those corrections followed by the block writer returns
+    exactly the bytes the parser consumed -/
+theorem recompress_analyze (P : Pred H) (d : List UInt8) (hd : d.length < 2 ^ 29) (p : Parsed)
+    (hp : parse d = .ok p)
     (ops : List Op) (he : encStream P p.plain p.blocks p.eofPadding = .ok ops) :
     ∃ blocks pad, decStream P p.plain ops = .ok (blocks, pad, []) ∧
       writeStream blocks pad = .ok (d.take (p.consumed d)) := by
-  sorry
+  have hl := length_bytesToBits d
+  obtain ⟨hv, hpad⟩ := parse_valid (bytesToBits d) (by omega) p hp
+  have hdec := decStream_encStream P p.plain p.blocks p.eofPadding hv hpad ops he []
+  rw [List.append_nil] at hdec
+  exact ⟨p.blocks, p.eofPadding, hdec, (write_parse d p hp).1⟩
 
 end Preflate.Proofs
